@@ -8,7 +8,7 @@ ALT = os.path.realpath(REPO) != "/repo"
 # sensitivity runs against a scratch copy of the tree get their own work, replay and evidence directories so they
 # can run next to checks of /repo and never overwrite real evidence
 WORK = os.path.join(VERIF, ".work", "alt-" + hashlib.md5(REPO.encode()).hexdigest()[:8]) if ALT else os.path.join(VERIF, ".work")
-OUTROOT = WORK if ALT else VERIF
+OUTROOT = os.environ.get("VERIF_OUTROOT") or (WORK if ALT else VERIF)  # (seeded-change runs set VERIF_OUTROOT: real evidence stays untouched)
 NCPU = os.cpu_count() or 4
 
 V2 = "github.com/PapaCharlie/go-restli/v2"
